@@ -202,6 +202,9 @@ def run_multiple(chk, want):
                 if rng.random() < 0.6:
                     calls.append(('swap_check', dict(score_mode=rng.choice(['library', 'classes']) if method == 'library' else 'classes')))
             chk.hist['refinement session with scorer switches between the calls'] += 1
+        if want == 'C11' and rng.random() < 0.25:
+            # the other setting of `check` (outside the property - see the note at C11_immediate_le - but part of _iter and of the model)
+            calls = [(nm, dict(ckw, check='immediate')) if nm != 'swap_check' and rng.random() < 0.6 else (nm, ckw) for nm, ckw in calls]
         log = []
         with Recorder() as rec:
             try:
@@ -226,7 +229,7 @@ def run_multiple(chk, want):
                         getattr(msa, name)(**ckw)
                     log.append(name if not set(ckw) - {'gap_weight'} else '%s(%s)' % (name, ', '.join('%s=%r' % kv for kv in sorted(ckw.items()))))
                     e = oracle_msa(msa, toks) if want == 'C04' else None
-                    if not e and name != 'swap_check' and want == 'C11':   # the score clause is C11's statement, not C04's
+                    if not e and name != 'swap_check' and want == 'C11' and ckw.get('check', 'final') == 'final':   # the score clause is C11's statement (default end-of-pass check), not C04's
                         gw = ckw['gap_weight']
                         sop_after = msa.sum_of_pairs(gap_weight=gw)
                         if sop_after < sop_before[gw] - 1e-12:
@@ -296,6 +299,25 @@ def run_multiple(chk, want):
                     bad_upd.append((seqs, method, kw, log, o[:300], rows_line(pub)[:300]))
             except Exception as ex:  # noqa
                 bad_upd.append((seqs, method, kw, log, 'tie raised %s' % type(ex).__name__, ''))
+        for itr in (rec.iters if want == 'C11' else []):
+            # check='immediate': the whole pass in the model (Lean iterImmediate) on the observed candidates == the matrix left
+            if itr['check'] != 'immediate' or itr['n_idx'] == 1 or len(itr['seen']) != itr['n_idx'] + 1:
+                continue
+            try:
+                cands = [sn[1] for sn in itr['seen'][1:]]
+                allm = [itr['before']] + cands + [itr['after']]
+                coded, code = sym_code([r for mtx in allm for r in mtx])
+                h = len(itr['before'])
+                mats = [coded[i * h:(i + 1) * h] for i in range(len(allm))]
+                o = drv.ask('iterimm|%s|%s %s|%s|%s|%s' % (itr['kind'], f2b(-1.0), f2b(itr['gw']), scorer_tokens(itr['scorer'], allm[:-1], code),
+                                                          rows_line(mats[0]), ' // '.join(rows_line(mx) for mx in mats[1:-1])))
+                nsop += 1
+                chk.hist['_iter(check=immediate) passes == Lean iterImmediate'] += 1
+                if o != 'P ' + rows_line(mats[-1]):
+                    # this branch is outside the property (two score functions are compared): a difference is noted, it is no verdict
+                    chk.hist['NOTE _iter(check=immediate) differs from Lean iterImmediate (outside the passes C11 speaks of)'] += 1
+            except Exception as ex:  # noqa
+                chk.hist['NOTE immediate tie raised %s' % type(ex).__name__] += 1
         for itr in (rec.iters if want == 'C11' else []):     # the end-of-pass decision is C11's mechanism, not C04's
             if itr['check'] != 'final' or itr['n_idx'] == 1 or not itr['seen']:
                 continue
